@@ -382,7 +382,7 @@ func init() {
 
 	ps := &PropSpec{
 		ID: "C18", Level: "fault_enumeration",
-		Verdict: []string{"reject.", "lookupfault.", "collide.limit", "collide.refusal-trace", "iter.range-error"},
+		Verdict: []string{"reject.", "lookupfault.", "collide.limit", "collide.refusal-trace", "iter.range-error", "panic"},
 		Rule: "at random points of mixed histories (all nesting depths; adversarial digesters with small collision limits): every kind of argument-invalid request (index = count+d on get/set/insert/remove, invalid ranges, absent keys on get/remove, collision-limit refusals, the undefined slab id on open/store/remove) must return the named error with the matching category and leave the pending write set and the bytes a commit would write unchanged; the history with the rejected steps removed must commit byte-identical registers; and for lookups (array get, map get/has, iteration) EVERY k-th ledger read, key comparison and hash-input call (k up to the count of a fault-free dry run of that lookup, first 40 for long iterations) is made to fail: the result must be an external error wrapping the injected one, again without trace. Fault enumeration for callback faults, exploration for arguments. Non-trivial = >= 3 rejected requests of >= 2 kinds and >= 1 enumerated lookup on a container of >= 3 slabs; distinct by trace hash",
 		ExpectedReach: []string{"reject.index", "reject.key", "reject.range", "reject.undefined-id", "c12.limit-refusal-predicted", "fault.callback.read", "fault.callback.cmp", "fault.callback.hip", "lookupfault.enumerated", "reject.twin-compared"},
 	}
@@ -401,6 +401,12 @@ func init() {
 			p.Owners = []uint64{1, 2}[:r.Range(1, 2)]
 			p.NestedTargetBias = 0.4
 			p.W["a.oob"] = 8
+			if r.Sub("wide").Chance(0.35) {
+				// wide arrays: index slabs with dozens of children (a rejected index must be refused on every search path)
+				p.MaxElems = 400
+				p.W["a.fill"] = 8
+				p.RootMapShare = 0.2
+			}
 			p.KeepProb = []float64{0, 0.3, 0.6}[r.Intn(3)] // detached-and-kept containers get offered to rejected requests
 			p.W["m.get"] = 8
 			p.W["m.remove"] = 12
